@@ -544,7 +544,9 @@ class Serialization:
     self._paths_by_id = daglish_legacy.collect_paths_by_id(
         value, memoizable_only=True)
     # The active PyrefPolicy.
-    self._pyref_policy = pyref_policy or DefaultPyrefPolicy()
+    self._pyref_policy = (
+        pyref_policy if pyref_policy is not None else DefaultPyrefPolicy()
+    )
     # The result of the serialization.
     self._result = {
         _ROOT_KEY: self._serialize(self._root, (), all_paths=((),)),
@@ -761,7 +763,9 @@ class Deserialization:
     # The root object to deserialize. Deserialization starts here.
     self._root = serialized_value[_ROOT_KEY]
     # The active PyrefPolicy.
-    self._pyref_policy = pyref_policy or DefaultPyrefPolicy()
+    self._pyref_policy = (
+        pyref_policy if pyref_policy is not None else DefaultPyrefPolicy()
+    )
     # The deserialized result.
     self._result = self._deserialize(self._root)
 
